@@ -555,8 +555,8 @@ def run(ctx):
         try:
             fields = "[" + "; ".join(f"({cm.coq_string(k)}, {mfield_term(k, v2, kn)})"
                                      for k, v2 in dd.items()) + "]"
-        except KeyError as e:
-            fields = "[]"
+        except Exception as e:  # noqa  (an exported dictionary of an unexpected structure: the model term
+            fields = "[]"           # cannot be built; the correspondence case then disagrees and is reported)
         man = cmanager(opm.name, context, options, tasks)
         idx = add(f"HDict {ckn(kn)} {man} {fields}", dict(rep, call="to_dict", impl=str(dd)[:400]),
                   ("dict", kn["context_name"], len(context) > 0))
